@@ -124,6 +124,20 @@ func realMain(args []string) int {
 			cfg.budgetS = budget
 		}
 		return check(cfg)
+	case "selftest":
+		if len(args) < 2 || args[1] != "determinism" {
+			return usage()
+		}
+		seeds, batches := 30, 3
+		for i := 2; i < len(args)-1; i++ {
+			switch args[i] {
+			case "-seeds":
+				seeds, _ = strconv.Atoi(args[i+1])
+			case "-batches":
+				batches, _ = strconv.Atoi(args[i+1])
+			}
+		}
+		return selftestDeterminism(seeds, batches)
 	case "replay":
 		if len(args) != 2 {
 			return usage()
